@@ -922,6 +922,19 @@ func (b *BaseStore) LoadFromSnapshot(ctx context.Context) error {
 	ctx, span := b.tracer.Start(ctx, "load-from-snapshot")
 	defer span.End()
 
+	// as for Load: it ends with its caller's context or with the store,
+	// whichever comes first
+	ctx, cancel := context.WithCancel(ctx)
+	defer cancel()
+
+	go func() {
+		select {
+		case <-b.ctx.Done():
+			cancel()
+		case <-ctx.Done():
+		}
+	}()
+
 	if err := b.emitters.evtLoad.Emit(stores.NewEventLoad(b.Address(), nil)); err != nil {
 		b.logger.Warn("unable to emit event load event", zap.Error(err))
 	}
@@ -1044,6 +1057,13 @@ func (b *BaseStore) LoadFromSnapshot(ctx context.Context) error {
 
 	if err != nil {
 		return fmt.Errorf("unable to load log: %w", err)
+	}
+
+	// the fetcher returns what it had read when its context ended: as in
+	// Load, that is not merged (the store would hold heads and not
+	// everything below them, and a second load would stop at those heads)
+	if err := ctx.Err(); err != nil {
+		return fmt.Errorf("the load was interrupted: %w", err)
 	}
 
 	// the log built from the snapshot also holds what its entries link to and
